@@ -269,8 +269,9 @@ func runC06(c *Ctx) {
 	reasonConstants(c, "C06-D5")
 
 	c.Rule("C06-D6", "nothing left behind in the adapter: the close path of a server socket replaces join by a no-op (under joinMu) before leaveAll on every path — whatever the close reason and whether or not "+
-		"connection state recovery is on —, always runs leaveAll for a connected socket, and Join/Leave address the adapter under the socket's own id (shared with C04-D5)", 5)
+		"connection state recovery is on —, always runs leaveAll for a connected socket, Join/Leave address the adapter under the socket's own id (shared with C04-D5), and adapter.DeleteAll forgets sids[sid] only after the sweep over every room of the sid, at every site that forgets it (shared with C04-D1)", 5)
 	closedSocketInNoRoom(c, "C06-D6")
+	deleteAllSweepsEveryRoom(c, "C06-D6")
 
 	c.Rule("C06-D12", "a closed session adopts nothing (F57, shared with C07-D9 and C17-D7): upgradeTo / finishUpgradeTo swap the transport only after a non-blocking look at closeChan made under the write-held transportMu "+
 		"(close() closes closeChan before it takes transportMu), and the upgrade watcher also waits for closeChan", 3)
